@@ -160,6 +160,17 @@ theorem C07_decoders_fit_declarations (a : Ast) (m : Module) (hs : Supported a =
   have hfam : m.fromBytes = m.fromRefMut := C07_families_identical a m hg
   exact ⟨h, by rw [hfam]; exact h⟩
 
+/-- **C07 (every type written in a declaration resolves).**  For every supported specification (with the front end's parameter
+    lists): in every emitted `pub struct` / `pub enum` / newtype, every field, payload and inner type resolves — a primitive, `T`,
+    `String`, or a declaration of the same module written with a parameter list exactly when that declaration has one, under
+    `[_; N]`, `Vec<_>`, `Option<Box<_>>`.  With `C07_struct/union_param_declared_iff_used` (the parameter is declared iff used)
+    and `C07_decoders_fit_declarations` this is the whole *type* part of the judgement `outputOk`; what it leaves is the name
+    hygiene (reserved names, finding K9, duplicate names, infinite types), which is a condition on the names the specification
+    chooses and is evaluated, not proved. -/
+theorem C07_declared_types_resolve (a : Ast) (m : Module) (hs : Supported a = true) (hp : paramsOk a = true)
+    (hg : generateModule a = .ok m) : m.types.all (declTypesResolve m) = true :=
+  decls_resolve hs hp hg
+
 /-! ### `paramsOk` holds for every `Ast` the front end builds -/
 
 theorem mem_bins {α} (k : String) (v : α) : ∀ (m : List (String × α)) (x : String × α), x ∈ bins k v m → x = (k, v) ∨ x ∈ m := by
